@@ -90,6 +90,7 @@ SPECIAL = {
     # digit counts around the point where 10 ** digits leaves the exactly representable integers (2 ** 53 ~ 9e15, 1e22) and the doubles
     'mathRound': lambda rnd: [rnd.choice([2.5, 1.005, 12345.678, 0, -0.5, 1e21]), rnd.choice([0, 1, 2, 15, 16, 22, 23, 24, 30, 100, 308, 309])],
     'numberToFixed': lambda rnd: [rnd.choice([2.5, 1.005, 12345.678, 0, -0.5]), rnd.choice([0, 1, 2, 15, 16, 22, 23, 24, 30, 100]), rnd.choice([True, False])],
+    'arraySlice': lambda rnd: rnd.choice([[[1, 2, 3, 4], rnd.choice([0, 1, 2, 3, 4])], [[1, 2, 3, 4], rnd.choice([0, 1, 2]), rnd.choice([2, 3, 4, None])]]),
     'objectGet': lambda rnd: [{'a': 1000, 'b': 2}, rnd.choice(['a', 'b', 'c']), 1000],
     'mathMax': lambda rnd: [rnd.choice([1000, 300, 2, 10 ** 9, 10 ** 9 + 1]) for _ in range(rnd.randint(1, 4))],
     'mathMin': lambda rnd: [rnd.choice([1000, 300, 2, 10 ** 9, 10 ** 9 + 1]) for _ in range(rnd.randint(1, 4))],
@@ -179,7 +180,69 @@ def call_once(fname, args):
     return {'status': status, 'res': A.aval(res), 'before': before, 'after': [A.aval(g[f'x{i}']) for i in range(len(args))]}
 
 
+OPERATORS = ['+', '-', '*', '/', '%', '**', '==', '!=', '<', '<=', '>', '>=', '&&', '||', 'neg', 'not']
+OP_NUMS = [0, 1, 2, 3, 7, -7, -1, 10, 100, 255, 1000, 65536, 2 ** 31, 10 ** 9 + 1, 10 ** 9, 2.5, -0.5, 0.1]
+
+
+def op_once(op, args):
+    from bare_script import evaluate_expression, BareScriptRuntimeError
+    g = {f'x{i}': a for i, a in enumerate(args)}
+    if op == 'neg':
+        e = {'unary': {'op': '-', 'expr': {'variable': 'x0'}}}
+    elif op == 'not':
+        e = {'unary': {'op': '!', 'expr': {'variable': 'x0'}}}
+    else:
+        e = {'binary': {'op': op, 'left': {'variable': 'x0'}, 'right': {'variable': 'x1'}}}
+    before = [A.aval(g[f'x{i}']) for i in range(len(args))]
+    status, res = 'done', None
+    try:
+        res = evaluate_expression(e, {'globals': g})
+    except BareScriptRuntimeError as exc:
+        status = 'runtime:' + str(exc)[:40]
+    except Exception as exc:  # pylint: disable=broad-except
+        status = 'host:' + type(exc).__name__
+    # results are compared as doubles: an exact int beyond 2 ** 53 and its nearest double count as the same number (the operands
+    # are |n| < 1e15, the products need not be), and so do 0 and -0 (a host int has no negative zero)
+    if isinstance(res, (int, float)) and not isinstance(res, bool):
+        try:
+            res = float(res)
+            if res == 0:
+                res = 0.0
+        except OverflowError:
+            res = float('inf') if res > 0 else float('-inf')
+    return {'status': status, 'res': A.aval(res), 'before': before, 'after': [A.aval(g[f'x{i}']) for i in range(len(args))]}
+
+
+def op_twin_case(seed, op):
+    """every operator: the operands as host ints, as floats, mixed (results of arrayLength / stringLength / jsonParse and loop indices
+    are host ints, literals are floats)"""
+    rnd = random.Random(seed)
+
+    def operand():
+        r = rnd.random()
+        if r < 0.75:
+            return rnd.choice(OP_NUMS)
+        if r < 0.85:
+            return [rnd.choice(OP_NUMS) for _ in range(rnd.randint(0, 3))]
+        return rnd.choice(['a', '', None, True, datetime.datetime(2024, 2, 29, 13, 14, 15)])
+    args = [operand()] if op in ('neg', 'not') else [operand(), operand()]
+    if op in ('*', '**'):
+        # products and powers stay well inside the doubles' exact integers (the property speaks of |n| < 1e15)
+        small = [0, 1, 2, 3, 7, -7, -1, 10, 100, 255, 2.5, -0.5]
+        args = [a if not (isinstance(a, (int, float)) and not isinstance(a, bool)) else rnd.choice(small) for a in args]
+        if op == '**' and isinstance(args[1], (int, float)) and not isinstance(args[1], bool):
+            args[1] = rnd.choice([0, 1, 2, 3, 5, -1, -2, 0.5])
+    ri = op_once(op, fresh_ints(copy.deepcopy(args)))
+    rf = op_once(op, to_float(copy.deepcopy(args)))
+    rm = op_once(op, to_mixed(copy.deepcopy(args), rnd))
+    return {'fn': 'operator ' + op, 'statusI': ri['status'], 'statusF': rf['status'], 'resI': ri['res'], 'resF': rf['res'],
+            'argsBeforeI': ri['before'], 'argsBeforeF': rf['before'], 'argsAfterI': ri['after'], 'argsAfterF': rf['after'],
+            'statusM': rm['status'], 'resM': rm['res'], 'argsAfterM': rm['after']}
+
+
 def twin_case(seed, fname):
+    if fname.startswith('op:'):
+        return op_twin_case(seed, fname[3:])
     rnd = random.Random(seed)
     args = gen_args(rnd, fname)
     nums = [a for a in args if isinstance(a, int) and not isinstance(a, bool)]
@@ -243,6 +306,7 @@ def run(ctx, replay=None):
     names = sorted(n for n in SCRIPT_FUNCTIONS if n not in EXCLUDE)
     per = ctx.pick(60, 2000)
     jobs = [(rnd.randrange(1 << 30), n) for n in names for _ in range(per)]
+    jobs += [(rnd.randrange(1 << 30), 'op:' + op) for op in OPERATORS for _ in range(per * 2)]
     twins = F.pmap(twin_case, jobs)
     F.judge(ctx, 'Trace_Twin', twins, canaries, tag='twin', key_fields=('fn', 'argsBeforeI'),
             describe=lambda c: {'function': c['fn'], 'args': c['argsBeforeI'], 'result_int': c['resI'], 'result_float': c['resF']},
@@ -251,8 +315,8 @@ def run(ctx, replay=None):
     lit = [c for c in F.pmap(literal_case, [(rnd.randrange(1 << 30), n) for n in sorted(gen_lib.SIGS) for _ in range(ctx.pick(25, 600))]) if c]
     F.judge(ctx, 'Trace_Core', lit, None, invariants=c08.INVS, tag='lit', key_fields=('text',),
             describe=lambda c: {'source': c['text'].split('\n')[-4:-1]})
-    ctx.notes.update({'functions': len(names), 'twin_calls': len(twins), 'script_literal_calls': len(lit)})
-    return F.finish(ctx, rule='every library function except clock/random/fetch/log x %d argument lists drawn from its own argument model '
+    ctx.notes.update({'functions': len(names), 'operators': len(OPERATORS), 'twin_calls': len(twins), 'script_literal_calls': len(lit)})
+    return F.finish(ctx, rule='every library function except clock/random/fetch/log x %d argument lists drawn from its own argument model and every operator x 2 x that many operand pairs '
                     '(integer parameters at their boundaries), executed with integral numbers as int and as float; twin judged by '
                     'Trace_Twin; modelled functions also through source text with number literals against BareCore; non-trivial = '
                     'the arguments contain a number' % per)
